@@ -26,12 +26,13 @@ attribute [local irreducible] offer
 
 /-- what a successful close consists of -/
 theorem close_inversion {s s' : State} {fin : Bool} {k : Nat} {c : Caller} {X : Nat} {per : List (Nat × Nat)}
-    (h : close s fin k c X per = .ok s') :
+    {rates : List (Nat × Nat × Nat)} (h : close s fin k c X per rates = .ok s') :
     ∃ a cp s1, s.allocs k = some a ∧ s.cps k = some cp ∧
       (fin = true → (c = .client a.owner ∨ callerIsBlobber a.bas c = true) ∧ a.exp ≤ s.now) ∧
       (fin = false → c = .client a.owner ∧ s.now ≤ a.exp) ∧
       offersReleasable s a.bas = true ∧
       X ≤ a.wp + cp ∧ sumCr per ≤ X ∧
+      payBounded a.bas per rates = true ∧ sumCc rates ≤ costOf a.bas / 5 + a.bas.length ∧
       closeBlobbers s a.bas per = some s1 ∧
       payOut s1 a.owner (a.wp + cp - X) = .ok { s' with allocs := s1.allocs, cps := s1.cps } ∧
       s'.allocs = s1.allocs.set k none ∧ s'.cps = s1.cps.set k none := by
@@ -63,31 +64,35 @@ theorem close_inversion {s s' : State} {fin : Bool} {k : Nat} {c : Caller} {X : 
                 · rename_i h6
                   split at h
                   · cases h
-                  · rename_i s1 hs1
+                  · rename_i h7
                     split at h
                     · cases h
-                    · rename_i s2 hs2
-                      cases h
-                      have e2 := payOut_eq hs2
-                      have ea : s2.allocs = s1.allocs := by rw [e2]
-                      have ec : s2.cps = s1.cps := by rw [e2]
-                      refine ⟨a, cp, s1, ha, hcp, ?_, ?_, by simpa using h5, by omega, by omega, hs1, ?_, by simp only [ea], by simp only [ec]⟩
-                      · intro hf; subst hf
-                        simp only [Bool.true_and, Bool.not_eq_true', Bool.or_eq_false_iff, decide_eq_false_iff_not, not_and,
-                          Bool.not_eq_false, decide_eq_true_eq, Nat.not_lt] at h1 h3
-                        refine ⟨?_, h3⟩
-                        by_cases ho : c = .client a.owner
-                        · exact Or.inl ho
-                        · exact Or.inr (h1 ho)
-                      · intro hf; subst hf
-                        simp only [Bool.not_false, Bool.true_and, Bool.not_eq_true', decide_eq_false_iff_not,
-                          decide_eq_true_eq, Nat.not_lt] at h2 h4
-                        exact ⟨Classical.not_not.mp h2, h4⟩
-                      · rw [hs2]; congr 1; rw [e2]
+                    · rename_i s1 hs1
+                      split at h
+                      · cases h
+                      · rename_i s2 hs2
+                        cases h
+                        have e2 := payOut_eq hs2
+                        have ea : s2.allocs = s1.allocs := by rw [e2]
+                        have ec : s2.cps = s1.cps := by rw [e2]
+                        simp only [Bool.or_eq_true, Bool.not_eq_true', decide_eq_true_eq, not_or, Bool.not_eq_false, Nat.not_lt] at h7
+                        refine ⟨a, cp, s1, ha, hcp, ?_, ?_, by simpa using h5, by omega, by omega, h7.1, h7.2, hs1, ?_, by simp only [ea], by simp only [ec]⟩
+                        · intro hf; subst hf
+                          simp only [Bool.true_and, Bool.not_eq_true', Bool.or_eq_false_iff, decide_eq_false_iff_not, not_and,
+                            Bool.not_eq_false, decide_eq_true_eq, Nat.not_lt] at h1 h3
+                          refine ⟨?_, h3⟩
+                          by_cases ho : c = .client a.owner
+                          · exact Or.inl ho
+                          · exact Or.inr (h1 ho)
+                        · intro hf; subst hf
+                          simp only [Bool.not_false, Bool.true_and, Bool.not_eq_true', decide_eq_false_iff_not,
+                            decide_eq_true_eq, Nat.not_lt] at h2 h4
+                          exact ⟨Classical.not_not.mp h2, h4⟩
+                        · rw [hs2]; congr 1; rw [e2]
 
 /-- **close_authorised** -/
 theorem close_authorised {s s' : State} {fin : Bool} {k : Nat} {c : Caller} {X : Nat} {per : List (Nat × Nat)}
-    (h : stepRel s (.close fin k c X per) s') :
+    {rates : List (Nat × Nat × Nat)} (h : stepRel s (.close fin k c X per rates) s') :
     ∃ a, s.allocs k = some a ∧
       (fin = true → (c = .client a.owner ∨ callerIsBlobber a.bas c = true) ∧ a.exp ≤ s.now) ∧
       (fin = false → c = .client a.owner ∧ s.now ≤ a.exp) := by
@@ -97,13 +102,13 @@ theorem close_authorised {s s' : State} {fin : Bool} {k : Nat} {c : Caller} {X :
 /-- **close_payout**: refund + debited-for-blobbers = write pool + challenge pool; the refund is paid to the owner out of
 the contract wallet; no other client balance moves; what blobbers are credited is at most what was debited. -/
 theorem close_payout {s s' : State} {fin : Bool} {k : Nat} {c : Caller} {X : Nat} {per : List (Nat × Nat)}
-    (h : stepRel s (.close fin k c X per) s') :
+    {rates : List (Nat × Nat × Nat)} (h : stepRel s (.close fin k c X per rates) s') :
     ∃ a cp, s.allocs k = some a ∧ s.cps k = some cp ∧ X ≤ a.wp + cp ∧ sumCr per ≤ X ∧
       s'.wallet + (a.wp + cp - X) = s.wallet ∧
       s'.clients a.owner = s.clients a.owner + (a.wp + cp - X) ∧
       (∀ j, j ≠ a.owner → s'.clients j = s.clients j) ∧
       s'.allocs k = none ∧ s'.cps k = none := by
-  obtain ⟨a, cp, s1, ha, hcp, _, _, _, hx, hcr, hs1, hpay, hal, hc⟩ := close_inversion h
+  obtain ⟨a, cp, s1, ha, hcp, _, _, _, hx, hcr, _, _, hs1, hpay, hal, hc⟩ := close_inversion h
   obtain ⟨fw, fc, _⟩ := closeBlobbers_frame14 hs1
   have e := payOut_eq hpay
   have hw : s1.wallet ≥ a.wp + cp - X := by
@@ -117,6 +122,49 @@ theorem close_payout {s s' : State} {fin : Bool} {k : Nat} {c : Caller} {X : Nat
     have := congrArg State.clients e; simpa using this
   refine ⟨a, cp, ha, hcp, hx, hcr, by rw [ew, ← fw]; omega, by rw [ecl, fc]; simp [setFn], fun j hj => by rw [ecl, fc]; simp [setFn, hj],
     by rw [hal, Map.set_same], by rw [hc, Map.set_same]⟩
+
+/-- **close_payout_bounded**: what a close credits is bounded per blobber allocation by its earned challenge value — the
+outstanding challenge value times the pass rate `succ/total` of the settle step — plus its share `cc` of the
+cancellation charge, and the shares together by the charge cap (a fifth of the allocation's cost, i.e. of Σ offers):
+for every position `n`: `cr_n · total_n ≤ cv_n · succ_n + (cc_n + 1) · total_n`, `0 < total_n`, and
+`Σ cc ≤ cost/5 + #blobbers` (the `+1`s absorb the float64 truncations). The pass rates and charge shares are
+observed parameters, so this is the model's ADMISSIBILITY condition: the real code is compared against it on every
+close (a close that pays more is answered `inadmissible blobbers-overpaid` by the driver). -/
+theorem close_payout_bounded {s s' : State} {fin : Bool} {k : Nat} {c : Caller} {X : Nat} {per : List (Nat × Nat)}
+    {rates : List (Nat × Nat × Nat)} (h : stepRel s (.close fin k c X per rates) s') :
+    ∃ a, s.allocs k = some a ∧ payBounded a.bas per rates = true ∧ sumCc rates ≤ costOf a.bas / 5 + a.bas.length ∧
+      (∀ (n : Nat) (d : BA) (dp cr succ total cc : Nat), a.bas[n]? = some d → per[n]? = some (dp, cr) → rates[n]? = some (succ, total, cc) →
+        0 < total ∧ cr * total ≤ d.cv * succ + (cc + 1) * total) := by
+  obtain ⟨a, cp, s1, ha, _, _, _, _, _, _, hb, hc, _⟩ := close_inversion h
+  refine ⟨a, ha, hb, hc, ?_⟩
+  have gen : ∀ (l : List BA) (ps : List (Nat × Nat)) (rs : List (Nat × Nat × Nat)), payBounded l ps rs = true →
+      ∀ (n : Nat) (d : BA) (dp cr succ total cc : Nat), l[n]? = some d → ps[n]? = some (dp, cr) → rs[n]? = some (succ, total, cc) →
+        0 < total ∧ cr * total ≤ d.cv * succ + (cc + 1) * total := by
+    intro l
+    induction l with
+    | nil => intro ps rs _ n d dp cr succ total cc hd; simp at hd
+    | cons x xs ih =>
+      intro ps rs hp n d dp cr succ total cc hd hpn hrn
+      cases ps with
+      | nil => simp [payBounded] at hp
+      | cons p ps' =>
+        cases rs with
+        | nil => obtain ⟨_, _⟩ := p; simp [payBounded] at hp
+        | cons r rs' =>
+          obtain ⟨dp0, cr0⟩ := p
+          obtain ⟨su0, to0, cc0⟩ := r
+          simp only [payBounded, Bool.and_eq_true, decide_eq_true_eq] at hp
+          cases n with
+          | zero =>
+            simp only [List.getElem?_cons_zero, Option.some.injEq, Prod.mk.injEq] at hd hpn hrn
+            obtain ⟨rfl, rfl⟩ := hpn
+            obtain ⟨rfl, rfl, rfl⟩ := hrn
+            subst hd
+            exact hp.1
+          | succ m =>
+            simp only [List.getElem?_cons_succ] at hd hpn hrn
+            exact ih ps' rs' hp.2 m d dp cr succ total cc hd hpn hrn
+  exact gen a.bas per rates hb
 
 /-- sum of the credited amounts of the entries of blobber `i` -/
 def crSum (i : Nat) : List BA → List (Nat × Nat) → Nat
@@ -161,20 +209,20 @@ theorem close_credits : ∀ {l : List BA} {per : List (Nat × Nat)} {s s' : Stat
 
 /-- **close_once**, part 1: both nodes are removed. -/
 theorem close_once {s s' : State} {fin : Bool} {k : Nat} {c : Caller} {X : Nat} {per : List (Nat × Nat)}
-    (h : stepRel s (.close fin k c X per) s') : s'.allocs k = none ∧ s'.cps k = none :=
+    {rates : List (Nat × Nat × Nat)} (h : stepRel s (.close fin k c X per rates) s') : s'.allocs k = none ∧ s'.cps k = none :=
   close_removes h
 
 /-- **close_once**, part 2: every operation addressed to a closed (absent) allocation fails as `absent`, i.e. without
 any state change — a second finalize or cancel by anybody, a write-pool lock, a write marker, a challenge response,
 an update. -/
 theorem closed_ops_fail {s : State} {k : Nat} (hk : s.allocs k = none) :
-    (∀ fin c X per, step s (.close fin k c X per) = .error (.fail "absent")) ∧
+    (∀ fin c X per rates, step s (.close fin k c X per rates) = .error (.fail "absent")) ∧
     (∀ j v, step s (.wpLock k j v) = .error (.fail "absent")) ∧
     (∀ i sz mv, step s (.commit k i sz mv) = .error (.fail "absent")) ∧
     (∀ i D m V dp cr, step s (.respPass k i D m V dp cr) = .error (.fail "absent")) ∧
     (∀ c v sz e ad rm rw cc dp ds, step s (.update k c v sz e ad rm rw cc dp ds) = .error (.fail "absent")) := by
   refine ⟨?_, ?_, ?_, ?_, ?_⟩
-  · intro fin c X per; simp only [step, close, hk]
+  · intro fin c X per rates; simp only [step, close, hk]
   · intro j v; simp only [step, wpLock, hk]
   · intro i sz mv; simp only [step, commit, hk]
   · intro i D m V dp cr; simp only [step, respPass, hk]
@@ -340,8 +388,8 @@ theorem step_keeps {s s' : State} {op : Op} (h : stepRel s op s') : KeepsNone s 
       split at h
       · ok_branches h; exact keepsNone_set ha rfl rfl
       · cases h
-  | close fin k c X per =>
-    obtain ⟨a, cp, s1, ha, _, _, _, _, _, _, hs1, hpay, hal, _⟩ := close_inversion h
+  | close fin k c X per rates =>
+    obtain ⟨a, cp, s1, ha, _, _, _, _, _, _, _, _, hs1, hpay, hal, _⟩ := close_inversion h
     obtain ⟨e1, e2, _⟩ := closeBlobbers_effect hs1
     have hn : s'.nallocs = s.nallocs := by
       have := congrArg State.nallocs (payOut_eq hpay)
@@ -380,11 +428,11 @@ theorem closed_forever {s : State} {k : Nat} (hk : k < s.nallocs) (hn : s.allocs
 
 /-! ### non-vacuity: the reachable state `W1` of Props/C13 is closed both ways -/
 
-example : stepOk W1 (.close false 0 (.client 3) 0 [(0, 0), (0, 0)]) = true := by decide +kernel
-example : stepOk { W1 with now := init.now + TU } (.close true 0 (.blobber 0) 0 [(0, 0), (0, 0)]) = true := by decide +kernel
+example : stepOk W1 (.close false 0 (.client 3) 0 [(0, 0), (0, 0)] [(1, 1, 0), (1, 1, 0)]) = true := by decide +kernel
+example : stepOk { W1 with now := init.now + TU } (.close true 0 (.blobber 0) 0 [(0, 0), (0, 0)] [(1, 1, 0), (1, 1, 0)]) = true := by decide +kernel
 /-- … and refused to a stranger, to the owner too early, and a second time -/
-example : stepOk W1 (.close false 0 (.client 2) 0 [(0, 0), (0, 0)]) = false ∧
-    stepOk W1 (.close true 0 (.client 3) 0 [(0, 0), (0, 0)]) = false ∧
-    stepOk (after W1 (.close false 0 (.client 3) 0 [(0, 0), (0, 0)])) (.close false 0 (.client 3) 0 []) = false := by decide +kernel
+example : stepOk W1 (.close false 0 (.client 2) 0 [(0, 0), (0, 0)] [(1, 1, 0), (1, 1, 0)]) = false ∧
+    stepOk W1 (.close true 0 (.client 3) 0 [(0, 0), (0, 0)] [(1, 1, 0), (1, 1, 0)]) = false ∧
+    stepOk (after W1 (.close false 0 (.client 3) 0 [(0, 0), (0, 0)] [(1, 1, 0), (1, 1, 0)])) (.close false 0 (.client 3) 0 [] []) = false := by decide +kernel
 
 end ZChain.Storage
